@@ -52,6 +52,11 @@ CHECKS = {
     note='Trusted: z3, symx executor, cube-root/sqrt atoms with defining equations, pi as bounded symbol, world objects reduced to masses.',
     technique='symbolic execution (Python + transliterated Cython + extracted methods) + z3 nonlinear real arithmetic; one inductive step from an arbitrary state',
     design='2/C17'),
+ 'C20': dict(
+    text='Bounded SMT validity checking of the transliterated complex.pyx / special_x.pyx: principal-value identities of cf_hypot and cf_csqrt over the reals per explored path; C99 G.6.4.2 special values of cf_csqrt as QF_FP Float64 queries on the same source executed with IEEE values (one query per clause and path); cf_cipow and the cf_cpow integer fast path executed for every concrete exponent on a formal indeterminate; the double-factorial literals against n!! as solver queries over the table encoding; interpreted sqrt_neg against the principal root.',
+    note='Trusted: z3 (NRA and QF_FP), transliterator, libm sqrt modelled as exact real sqrt in the real-arithmetic part. Few-ulp accuracy of finite results, cexp/clog values and the overflow-scaling branch are not decided (stated).',
+    technique='Cython source transliteration + symbolic execution; z3 nonlinear real arithmetic and QF_FP Float64 (Annex G clauses)',
+    design='2/C20'),
 }
 NOT_YET = {}
 ALL = ['C%02d' % i for i in range(1, 21)]
